@@ -53,6 +53,19 @@ def act? (self : Nat) (s : String) : Option Act :=
     if j = self then none else some (.destroy j)
   else if s.startsWith "cm" then (bounded? (s.drop 2).toString 255).map .calMask
   else if s.startsWith "cs" then (specialsSep? (s.drop 2).toString "+").map .calSp
+  else if s.startsWith "cl" then (slot? (s.drop 2).toString).map .cleanup
+  else if s.startsWith "tz" then
+    match (s.drop 2).toString.splitOn ":" with
+    | [j, m] => do
+        let j ← slot? j; let m ← int? m
+        if m < -1440 ∨ m > 1440 then none else some (.tz j m)
+    | _ => none
+  else if s.startsWith "in" then
+    match (s.drop 2).toString.splitOn ":" with
+    | [j, sod, m, wd] => do
+        let j ← slot? j; let sod ← int? sod; let m ← mask? m; let wd ← bool? wd
+        if sod < -200000 ∨ sod > 200000 then none else some (.init j sod m wd)
+    | _ => none
   else none
 
 def script? (self : Nat) (s : String) : Option (List Act) :=
@@ -118,6 +131,7 @@ inductive POp where
   | pure (lines : List String) (tags : List String)     -- next-instant probes
   | world (o : WOp) (tags : List String)
   | clock (o : WOp)
+  | clx (i : Nat)                                        -- cleanup() without re-installing the callback
   | bad
 
 def parseOp (w : World) (ws : List String) : POp :=
@@ -174,7 +188,8 @@ def parseOp (w : World) (ws : List String) : POp :=
           | some r => pure (.pure ["P en=1 enabled=1 rem=" ++ toString (w32 (w32 r + U32 - t))] ["cron-enable-ok"])
     | "new" :: i :: k :: rest => do
         let i ← slot? i
-        let c ← (if k == "wk" then some Cls.weekly else if k == "os" then some Cls.oneshot else if k == "wd" then some Cls.workday else none)
+        let c ← (if k == "wk" then some Cls.weekly else if k == "os" then some Cls.oneshot else if k == "wd" then some Cls.workday
+                 else if k == "cr" then some Cls.cron else none)
         let sc ← match rest with
           | [] => some []
           | [s] => script? i s
@@ -186,6 +201,14 @@ def parseOp (w : World) (ws : List String) : POp :=
         if sod < -200000 ∨ sod > 200000 then none else
         let _ ← w.get i
         pure (.world (.init i sod m wd) [])
+    | ["initc", i, s, m, h, dom, mon, dow] => do
+        let i ← slot? i
+        let s ← cronField? s; let m ← cronField? m; let h ← cronField? h
+        let dom ← cronField? dom; let mon ← cronField? mon; let dow ← cronField? dow
+        let a ← w.get i
+        let e := Cron.parse s m h dom mon dow
+        pure (.world (.initc i e) [if a.cls != .cron then "initc-wrong-class" else if a.st = .running then "initc-running"
+                                   else if e.isNone then (if a.st = .inited then "initc-rejected-keeps-old" else "initc-rejected") else "initc-ok"])
     | ["tz", i, m] => do
         let i ← slot? i; let m ← int? m
         if m < -1440 ∨ m > 1440 then none else
@@ -202,6 +225,7 @@ def parseOp (w : World) (ws : List String) : POp :=
         let i ← slot? i; let a ← w.get i
         pure (.world (.refresh i) [if a.st = .running then "refresh" else "refresh-noop"])
     | ["cl", i] => do let i ← slot? i; let _ ← w.get i; pure (.world (.cleanup i) [])
+    | ["clx", i] => do let i ← slot? i; let _ ← w.get i; pure (.clx i)
     | ["cb", i] => do let i ← slot? i; let _ ← w.get i; pure (.world (.setCb i) [])
     | ["del", i] => do
         let i ← slot? i; let a ← w.get i
@@ -230,8 +254,20 @@ def expectLine (a : TAcc) (want : String) (what : String) : TAcc :=
                  else { a with err := some s!"op#{a.nops} {what}: impl=[{l}] model=[{want}]" }
   | [] => { a with err := some s!"op#{a.nops} {what}: impl=<missing> model=[{want}]" }
 
+/-- expiries the trace cannot show: an alarm whose callback was cleared by cleanup() (op `clx`) and never
+set again expires silently (onTimeExpired re-arms, `if (cb_)` skips the call).  Serve every such alarm
+that the loop may serve now. -/
+def silentFires (w : World) : Nat → World × Nat
+  | 0 => (w, 0)
+  | fuel + 1 =>
+    match (List.range w.slots.length).find? (fun j => canFire w j && (match w.get j with | some al => !al.hasCb | none => false)) with
+    | none => (w, 0)
+    | some j => let r := silentFires (wFire w j) fuel; (r.1, r.2 + 1)
+
 /-- consume the `F j <state>` lines of one pass -/
-partial def firePass (a : TAcc) (count : Nat) : TAcc :=
+partial def firePass (a0 : TAcc) (count : Nat) : TAcc :=
+  let sf := silentFires a0.w 16
+  let a := if sf.2 > 0 then { a0 with w := sf.1, tags := a0.tags ++ ["silent-expiry"] } else a0
   match a.tl with
   | l :: rest =>
     match words l with
@@ -281,6 +317,9 @@ def stepOp (a : TAcc) (line : String) : TAcc :=
         | .cleanup j => (wOp w' (.setCb j)).1
         | _ => w'
       expectLine { a with w := w', tags := a.tags ++ tags ++ armTags a.w w' } (stateLine w' ret) "api result"
+  | .clx i =>
+      let w' := (wOp a.w (.cleanup i)).1
+      expectLine { a with w := w', tags := a.tags ++ ["cleanup-clears-callback"] ++ armTags a.w w' } (stateLine w' true) "api result"
   | .clock o =>
       let w1 := (wOp a.w o).1
       let a1 := firePass { a with w := w1 } 0
